@@ -824,7 +824,7 @@ class EnforcedForest:
         hashed = hash_fast(
             (
                 "".join(
-                    str(hash(k)) + v.get("geometry", "")
+                    repr(k) + v.get("geometry", "")
                     for k, v in self.edge_data.items()
                 )
                 + "".join(
